@@ -2,9 +2,12 @@
 from __future__ import annotations
 
 import datetime as dt
+import enum
 import json
 import os
 import random
+import subprocess
+import sys
 import tempfile
 
 from harness import common as C
@@ -254,6 +257,141 @@ def make_ident_case(rng):
     return ty, style
 
 
+# --------------------------------------------------------------------------- family: text over the whole character range × process settings
+# "... and the same through the YAML, TOML and JSON-file mixins for payloads those formats can carry": which payloads a format can
+# carry is a fact about the format (its standard writer and reader carry them), not about the text the mixin happens to write.
+# (1) every `str` of the instance - field, element, dict key and value, text below Any, at every position - is drawn from all texts
+#     (gen.any_text: C0 / C1 controls, the line breaks of other standards, Latin-1 / code-page / BMP / astral characters, format and
+#     non-characters, lone surrogates, look-alikes of other scalars, texts longer than a writer's line width);
+# (2) the file round trips of the same cases run again in child interpreters started under every process setting that decides what
+#     `open()` without an encoding means: the locale encodings this machine offers (ASCII for LC_ALL=C, ...) and UTF-8 mode on / off.
+TEXT_WIZARDS = ['yaml', 'yaml', 'yaml', 'toml', 'toml', 'file', 'file', True]
+
+
+def make_text_case(rng):
+    w = rng.choice(TEXT_WIZARDS)
+    o = gen.Opts(**dict(OPTS, leaves=['str', 'str', 'str', 'str', 'any', 'int', 'bool', 'float', 'path']))
+    o.meta_keys = ['key_transform_with_dump']
+    o.py_wizard_prob = 0.0
+    o.containers = ['list', 'list', 'dict', 'dict', 'set', 'frozenset', 'deque', 'tuple', 'vtuple', 'defaultdict', 'ordereddict']
+    if w == 'yaml':
+        # kept out: tuple / NamedTuple / OrderedDict values (recorded finding yaml-python-tags, findings/yaml-python-tags.py)
+        o.containers = ['list', 'list', 'dict', 'dict', 'set', 'frozenset', 'deque', 'defaultdict']
+        o.allow_nt = False
+    if w == 'toml':
+        # TOML has no null: keep the share of payloads it can carry high
+        o.leaves = ['str', 'str', 'str', 'str', 'int', 'bool', 'float']
+        o.allow_optional = False
+        o.allow_union = False
+        o.nt_default_prob = 0.0
+    ty = gen.gen_cls(rng, rng.choice([0, 1, 1, 2]), o)
+    if not model.contains_kind(ty, 'str'):
+        _add_field(rng, ty, rng.choice([lambda u: u, lambda u: T('list', u), lambda u: T('dict', u, u)])(T('str')))
+    ty['info']['wizard'] = w
+    if w in ('yaml', 'toml'):
+        ty['info']['meta'] = None
+    return ty
+
+
+def process_settings():
+    """the settings of a child interpreter that decide the encoding of `open()` without one: for every locale of this machine with
+    an encoding of its own (UTF-8 mode off, no coercion of the C locale), and UTF-8 mode switched on"""
+    base = {'PYTHONUTF8': '0', 'PYTHONCOERCECLOCALE': '0'}
+    try:
+        names = subprocess.run(['locale', '-a'], capture_output=True, text=True, timeout=20).stdout.split()
+    except Exception:
+        names = []
+    names = ['C'] + [n for n in names if n not in ('C', 'POSIX')]
+    out, seen = [], set()
+    probe = 'import locale, sys; sys.stdout.write(locale.getencoding())'
+    for n in names[:60]:
+        env = dict(base, LC_ALL=n, LANG=n)
+        try:
+            enc = subprocess.run([sys.executable, '-c', probe], env=_child_env(env), capture_output=True, text=True, timeout=30).stdout.strip()
+        except Exception:
+            continue
+        import codecs
+        try:
+            enc_n = codecs.lookup(enc).name
+        except LookupError:
+            continue
+        if enc_n in seen:
+            continue
+        seen.add(enc_n)
+        out.append({'name': f'locale {n} ({enc}), UTF-8 mode off', 'env': env})
+        if len(out) >= 4:
+            break
+    out.append({'name': 'locale C, UTF-8 mode on', 'env': {'LC_ALL': 'C', 'LANG': 'C', 'PYTHONUTF8': '1'}})
+    return out
+
+
+def _child_env(extra):
+    env = {k: v for k, v in os.environ.items() if not k.startswith('LC_') and k not in ('LANG', 'LANGUAGE', 'PYTHONUTF8', 'PYTHONCOERCECLOCALE',
+                                                                                      'PYTHONIOENCODING')}
+    env.update(extra)
+    env['VERIF_REPO'] = str(C.REPO)
+    return env
+
+
+def run_under_settings(ctx, jobs):
+    """jobs = [(case index, j, case)] of the family text-charset: the file round trips of each, in a child interpreter per process setting"""
+    if not jobs:
+        return
+    payload = json.dumps({'seed': ctx.seed, 'js': [j for _i, j, _c in jobs]})
+    by_j = {j: (i, c) for i, j, c in jobs}
+    for st in process_settings():
+        try:
+            p = subprocess.run([sys.executable, '-m', 'harness.props.c01', '--file-roundtrips'], input=payload.encode('ascii'), cwd=str(C.VERIF),
+                               env=_child_env(st['env']), capture_output=True, timeout=600)
+        except subprocess.TimeoutExpired:
+            ctx.notes.setdefault('process_setting_timeouts', []).append(st['name'])
+            raise
+        lines = [json.loads(l) for l in p.stdout.decode('ascii', 'backslashreplace').splitlines() if l.startswith('{')]
+        done = [l for l in lines if 'done' in l]
+        if p.returncode != 0 or not done:
+            raise RuntimeError(f'child interpreter under {st["name"]} exited {p.returncode}: {p.stderr.decode("utf-8", "replace")[-1500:]}')
+        ctx.notes.setdefault('process_settings', {})[st['name']] = dict(done[0], encoding=done[0].get('encoding'))
+        for l in lines:
+            if 'j' not in l:
+                continue
+            i, case = by_j[l['j']]
+            ctx.current = i
+            ctx.seen('file-roundtrip-under-setting', [st['name'], case], nontrivial=False)
+            for kind, what, k2 in l['failures']:
+                ctx.fail(kind + ':process-setting', dict(case, process_setting=st), f'[{st["name"]}, open() encoding {done[0].get("encoding")}] {what}', key=k2)
+
+
+def child_main():
+    """(child interpreter) regenerate the cases of the family text-charset named on stdin, run their file round trips, report per case"""
+    import locale
+    C.setup_repo_path()
+    req = json.loads(sys.stdin.buffer.read().decode('ascii'))
+    gen.SUBS = False
+    n = 0
+    for j in req['js']:
+        crng = random.Random(f'C01:{req["seed"]}:text-charset:{j}')
+        gen.TEXT = gen.any_text
+        try:
+            ty = make_text_case(crng)
+            built = model.Built(ty)
+        except Exception:
+            continue
+        finally:
+            gen.TEXT = None
+        try:
+            gen.TEXT = gen.any_text
+            x = gen.gen_instance(crng, ty, built)
+            gen.TEXT = None
+            fails = file_roundtrips(x, built.root)
+            n += 1
+            sys.stdout.write(json.dumps({'j': j, 'failures': fails}) + '\n')
+        finally:
+            gen.TEXT = None
+            built.close()
+    sys.stdout.write(json.dumps({'done': n, 'encoding': locale.getencoding(), 'utf8_mode': sys.flags.utf8_mode}) + '\n')
+    return 0
+
+
 def standalone_first_candidates(ty):
     """(nested class N, allowed uses) for uses of N on its own that may precede the first use of `ty`.
 
@@ -366,6 +504,13 @@ def run(ctx: C.Ctx):
                  'letters, and several names of one class that coincide under a folding of letter case or underscores (t / T, id / ID / Id, '
                  'userName / user_name / username) - dumped with key_transform_with_dump = NONE set through JSONPyWizard, an inner Meta, a Meta '
                  'bound from outside, DumpMeta(..).bind_to, TOMLWizard or the JSON-file mixin.')
+    ctx.rule += (' Family text-charset: str-heavy class models deriving from the YAML / TOML / JSON-file mixins (and plain JSONWizard) whose texts - '
+                 'fields, elements, dict keys and values, texts below Any - are drawn from all texts: C0 and C1 controls (U+0085 among them), '
+                 'U+2028 / U+2029, Latin-1, code-page, BMP, combining, format, private-use and non-characters, astral characters, lone surrogates, '
+                 'look-alikes of other scalars and of syntax, texts beyond a line width, blanks / breaks at either end. A format carries a payload '
+                 'when its standard writer and reader give the document back (not: when the text the mixin wrote happens to); round trips in '
+                 'memory and through to_*_file / from_*_file; the file round trips of every case again in child interpreters under each locale '
+                 'encoding the machine offers (UTF-8 mode off, no C-locale coercion: LC_ALL=C is ASCII) and under UTF-8 mode.')
     n = ctx.quick(1200, 15000)
     reqs, pend = [], []
     for i in range(n):
@@ -387,7 +532,9 @@ def run(ctx: C.Ctx):
             built.close()
     # ---- directed family; each case has its own RNG (seed, family, j), so a replay regenerates just that case
     base = n
-    for fam, count in (('tagged-config', ctx.quick(500, 6000)), ('value-shapes', ctx.quick(500, 6000)), ('any-identifier', ctx.quick(400, 5000))):
+    jobs = []
+    for fam, count in (('tagged-config', ctx.quick(500, 6000)), ('value-shapes', ctx.quick(500, 6000)), ('any-identifier', ctx.quick(400, 5000)),
+                       ('text-charset', ctx.quick(700, 8000))):
         for j in range(count):
             idx = base + j
             if ctx.done(idx):
@@ -399,6 +546,12 @@ def run(ctx: C.Ctx):
                 ty, pre = make_tagged_case(crng)
             elif fam == 'value-shapes':
                 ty, pre = make_value_case(crng), []
+            elif fam == 'text-charset':
+                gen.TEXT = gen.any_text
+                try:
+                    ty, pre = make_text_case(crng), []
+                finally:
+                    gen.TEXT = None
             else:
                 (ty, style), pre = make_ident_case(crng), []
             try:
@@ -409,13 +562,21 @@ def run(ctx: C.Ctx):
                 continue
             try:
                 pre_insts = [(n_, op, gen.gen_instance(crng, built.infos[n_], built)) for n_, op in pre]
-                x = gen.gen_instance(crng, ty, built)
+                gen.TEXT = gen.any_text if fam == 'text-charset' else None
+                try:
+                    x = gen.gen_instance(crng, ty, built)
+                finally:
+                    gen.TEXT = None
                 if not ctx.begin_case(idx):
                     continue
                 one_case(ctx, ty, built, x, reqs, pend, pre=pre_insts, fam=fam)
+                if fam == 'text-charset' and any(hasattr(built.root, m[1]) for m in FILE_MIXINS):
+                    jobs.append((idx, j, {'ty': ty, 'inst': ascii(x)[:500]}))
             finally:
                 built.close()
         base += count
+    # the file round trips of the family text-charset once more, under every process setting that decides what open() means
+    run_under_settings(ctx, jobs)
     if ctx.model_available:
         outs = ctx.driver.run(reqs)
         for (case, impl_out, built), o in zip(pend, outs):
@@ -425,7 +586,7 @@ def run(ctx: C.Ctx):
 def one_case(ctx, ty, built, x, reqs, pend, pre=(), fam='roundtrip'):
     """all round trips of one (class model, history of stand-alone uses of nested classes `pre`, instance)"""
     from dataclass_wizard import asdict, fromdict
-    case = {'ty': ty, 'inst': repr(x)[:500]}
+    case = {'ty': ty, 'inst': (ascii(x) if fam == 'text-charset' else repr(x))[:500]}
     src = dict(src=built.source)
     # ---- history: nested classes used on their own (as main classes) before the first use of the main class;
     # each such use is itself an instance of the property
@@ -458,7 +619,9 @@ def one_case(ctx, ty, built, x, reqs, pend, pre=(), fam='roundtrip'):
     if jd is not None:
         out_j = load_outcome(lambda: fromdict(Cls, jd))
         check_rt(ctx, 'roundtrip:jsonified', case, out_j, x, src, key)
-        if not model.contains_kind(ty, 'selfref'):      # the class model of the driver is a tree: self-referential models are carried by the oracle alone
+        # the class model of the driver is a tree: self-referential models are carried by the oracle alone; so are documents with
+        # lone surrogates (the driver speaks UTF-8)
+        if not model.contains_kind(ty, 'selfref') and not _SURROGATE.search(json.dumps(jd, ensure_ascii=False)):
             st = model.StdTables()
             st.add_json(jd)
             reqs.append({'op': 'load', 'ty': model.enc_ty(ty), 'doc': model.enc_j(jd), 'std': st.build()})
@@ -474,6 +637,10 @@ def one_case(ctx, ty, built, x, reqs, pend, pre=(), fam='roundtrip'):
         elif key is None:
             ctx.fail('roundtrip:list', case, f'from_list(list_to_json([x, x])) raised {out[1]!r}', detail=src)
     text_formats(ctx, case, x, Cls, built, src, key)
+
+
+import re
+_SURROGATE = re.compile('[\ud800-\udfff]')
 
 
 def _known_key(x):
@@ -502,48 +669,189 @@ def check_rt(ctx, kind, case, out, x, src, key):
 
 
 def text_formats(ctx, case, x, Cls, built, src, key):
-    """YAML / TOML / JSON-file mixins (the root class derives from the mixin)."""
+    """YAML / TOML / JSON-file mixins (the root class derives from the mixin): in memory and through files.
+
+    A payload counts as carried by a format when the text the mixin wrote reads back (plain reader of the format) as the dumped
+    document - then the load must give x back; and when the mixin's text does NOT read back as the document (or writing raised)
+    although the format's standard writer and reader carry it, that is a failure of the round trip as well."""
     from dataclass_wizard import asdict
-    import yaml
-    import tomllib
     d = asdict(x)
     try:
         jd = json.loads(json.dumps(d))
     except Exception:
         return
-    if hasattr(Cls, 'to_yaml'):
+    ordered = model.contains_kind(built.root_ty, 'ordereddict')
+    for fmt, attr in (('yaml', 'to_yaml'), ('toml', 'to_toml')):
+        if not hasattr(Cls, attr):
+            continue
+        reader = _reader(fmt)
+        txt, err = None, None
         try:
-            txt = x.to_yaml()
-            carriable = _same_doc(yaml.safe_load(txt), jd) and not _has_nan(jd)
-        except Exception:
-            carriable = False
-        ctx.count('yaml_carriable' if carriable else 'yaml_not_carriable')
+            txt = getattr(x, attr)()
+            carriable = _same_doc(reader(txt), jd, ordered) and _fmt_can(fmt, jd)
+        except Exception as e:
+            carriable, err = False, e
+        ctx.count(f'{fmt}_carriable' if carriable else f'{fmt}_not_carriable')
         if carriable:
-            check_rt(ctx, 'roundtrip:yaml', case, load_outcome(lambda: Cls.from_yaml(txt)), x, src, key)
-    if hasattr(Cls, 'to_toml'):
-        try:
-            txt = x.to_toml()
-            carriable = _same_doc(tomllib.loads(txt), jd) and not _has_nan(jd) and not isinstance(jd.get('items'), list)
-        except Exception:
-            carriable = False
-        ctx.count('toml_carriable' if carriable else 'toml_not_carriable')
-        if carriable:
-            check_rt(ctx, 'roundtrip:toml', case, load_outcome(lambda: Cls.from_toml(txt)), x, src, key)
-    if hasattr(Cls, 'to_json_file'):
-        fd, path = tempfile.mkstemp(suffix='.json', prefix='dwverif')
+            check_rt(ctx, f'roundtrip:{fmt}', case, load_outcome(lambda: getattr(Cls, 'from_' + fmt)(txt)), x, src, key)
+        elif _plain_doc(d, jd) and ref_carries(fmt, jd, ordered):
+            ctx.count(f'{fmt}_carriable_by_reference_only')
+            ctx.fail(f'roundtrip:{fmt}', case, _not_carried_msg(fmt, attr, txt, err), key=key or _python_tags_key(fmt, d), detail=src)
+    for kind, what, k2 in file_roundtrips(x, Cls, ordered, jd):
+        ctx.fail(kind, case, what, key=key or k2, detail=src)
+
+
+YAML_PLAIN_TYPES = (dict, list, str, int, float, bool, type(None))
+
+
+def _python_tags_key(fmt, d):
+    """known-finding attribution (findings/yaml-python-tags.py): the dict handed to yaml.dump holds a value whose type is not one
+    of YAML's own (asdict keeps tuple, NamedTuple and OrderedDict objects); to_yaml writes a !!python/... tag for it, which from_yaml
+    (safe_load) rejects. Only the failure 'the text written does not read back as the document' of such an instance is attributed."""
+    def walk(v):
+        if type(v) not in YAML_PLAIN_TYPES:
+            return True
+        if isinstance(v, dict):
+            return any(walk(k) or walk(y) for k, y in v.items())
+        if isinstance(v, list):
+            return any(walk(y) for y in v)
+        return False
+    if fmt == 'toml':
+        return 'toml-int-mixin-enum-member' if _holds(d, lambda v: isinstance(v, enum.Enum) and isinstance(v, int) and not isinstance(v, enum.IntEnum)) else None
+    return 'yaml-python-tags' if fmt == 'yaml' and walk(d) else None
+
+
+def _holds(d, pred):
+    """known-finding attribution (findings/toml-int-mixin-enum-member.py): asdict leaves a member of an `(int, Enum)` mix-in as the
+    member; tomli_w writes an int through str(), which for such a member is 'E.M' - not a TOML value"""
+    if pred(d):
+        return True
+    if isinstance(d, dict):
+        return any(_holds(y, pred) for y in d.values())
+    if isinstance(d, (list, tuple)):
+        return any(_holds(y, pred) for y in d)
+    return False
+
+
+def _not_carried_msg(fmt, attr, txt, err):
+    if err is not None and txt is None:
+        return f'{fmt.upper()} carries the dumped document (its standard writer and reader give it back) but {attr} raised {type(err).__name__}: {str(err)[:300]}'
+    return (f'{fmt.upper()} carries the dumped document (its standard writer and reader give it back) but the text written by {attr} does not read back '
+            f'as that document ({("reader raised " + type(err).__name__ + ": " + str(err)[:200]) if err is not None else "it reads as a different one"}); '
+            f'text: {ascii(txt)[:400]}')
+
+
+def _reader(fmt):
+    if fmt == 'yaml':
+        import yaml
+        return yaml.safe_load
+    if fmt == 'toml':
+        import tomllib
+        return tomllib.loads
+    return json.loads
+
+
+def _fmt_can(fmt, jd):
+    """payload shapes kept out as before: NaN (never equal to itself); for TOML a top-level list under the key 'items'"""
+    if _has_nan(jd):
+        return False
+    return not (fmt == 'toml' and isinstance(jd.get('items'), list))
+
+
+def _plain_doc(d, jd):
+    """is the dumped dict, with tuples read as lists and dict subclasses as dicts, the same document as its JSON form (all keys are
+    texts already)? Only then is 'the format carries the JSON form' a statement about what the mixin was given to write."""
+    def plain(v):
+        if isinstance(v, dict):
+            return {k: plain(y) for k, y in v.items()}
+        if isinstance(v, (list, tuple)):
+            return [plain(y) for y in v]
+        return v
+    try:
+        return _same_doc(plain(d), jd, True)
+    except Exception:
+        return False
+
+
+def ref_carries(fmt, jd, ordered=True, as_file=False):
+    """can the format carry the document at all: its standard writer and reader (default settings) give it back; a file is bytes (UTF-8)"""
+    try:
+        if fmt == 'yaml':
+            import yaml
+            txt = yaml.safe_dump(jd)
+        elif fmt == 'toml':
+            import tomli_w
+            txt = tomli_w.dumps(jd)
+        else:
+            txt = json.dumps(jd)
+        if as_file:
+            txt = txt.encode('utf-8').decode('utf-8')
+        return _same_doc(_reader(fmt)(txt), jd, ordered) and _fmt_can(fmt, jd)
+    except Exception:
+        return False
+
+
+FILE_MIXINS = [('json', 'to_json_file', 'from_json_file', '.json', 'r'), ('yaml', 'to_yaml_file', 'from_yaml_file', '.yaml', 'r'),
+               ('toml', 'to_toml_file', 'from_toml_file', '.toml', 'rb')]
+
+
+def file_roundtrips(x, Cls, ordered=None, jd=None):
+    """from_<fmt>_file(path) after x.to_<fmt>_file(path) for every file mixin the class has; returns [[kind, what], ...] (no ctx: also
+    run in child interpreters under other process settings). Same notion of 'carried' as in memory, applied to the file's bytes."""
+    from dataclass_wizard import asdict
+    out = []
+    try:
+        d = asdict(x)
+        if jd is None:
+            jd = json.loads(json.dumps(d))
+    except Exception:
+        return out
+    if ordered is None:
+        ordered = True
+    for fmt, to_, from_, suffix, mode in FILE_MIXINS:
+        if not (hasattr(Cls, to_) and hasattr(Cls, from_)):
+            continue
+        kind = f'roundtrip:{fmt}-file'
+        fd, path = tempfile.mkstemp(suffix=suffix, prefix='dwverif')
         os.close(fd)
         try:
-            x.to_json_file(path)
-            check_rt(ctx, 'roundtrip:json-file', case, load_outcome(lambda: Cls.from_json_file(path)), x, src, key)
+            by_ref = _plain_doc(d, jd) and ref_carries(fmt, jd, ordered, as_file=True)
+            try:
+                getattr(x, to_)(path)
+                with open(path, 'rb') as f:
+                    raw = f.read()
+            except Exception as e:
+                if by_ref:
+                    out.append([kind, f'{fmt.upper()} carries the dumped document (standard writer / reader, UTF-8 bytes) but {to_} raised '
+                                      f'{type(e).__name__}: {str(e)[:300]}', None])
+                continue
+            try:
+                carried = _same_doc(_reader(fmt)(raw.decode('utf-8')), jd, ordered) and _fmt_can(fmt, jd)
+            except Exception:
+                carried = False
+            if not (carried or by_ref or fmt == 'json'):
+                continue
+            res = load_outcome(lambda: getattr(Cls, from_)(path))
+            k2 = None if carried else _python_tags_key(fmt, d)
+            if res[0] == 'err':
+                out.append([kind, f'{from_} of the file written by {to_} raised {type(res[1]).__name__}: {str(res[1])[:300]}; file: {ascii(raw)[:300]}', k2])
+            elif not ref.same_typed(res[1], x):
+                out.append([kind, (f'{from_}({to_}(x)) differs from x at {ref.first_diff(res[1], x)} (loaded vs original); file: {ascii(raw)[:300]}')[:1500], k2])
         finally:
-            os.unlink(path)
+            try:
+                os.unlink(path)
+            except OSError:
+                pass
+    return out
 
 
-def _same_doc(a, b):
-    """does the text carry the document, *including the order of keys* (an OrderedDict field depends on it; TOML writes
-    scalar entries before tables)"""
+def _same_doc(a, b, ordered=True):
+    """does the text carry the document - *including the order of keys* when an OrderedDict field depends on it (YAML's writer sorts
+    keys, TOML writes scalar entries before tables); the order of keys means nothing to any other type"""
     try:
-        return a == b and json.dumps(a) == json.dumps(b)
+        if ordered:
+            return a == b and json.dumps(a) == json.dumps(b)
+        return a == b and json.dumps(a, sort_keys=True) == json.dumps(b, sort_keys=True)
     except Exception:
         return False
 
@@ -558,3 +866,6 @@ def _has_nan(v):
     return False
 
 
+if __name__ == '__main__':
+    if '--file-roundtrips' in sys.argv[1:]:
+        sys.exit(child_main())
